@@ -221,7 +221,10 @@ inline std::vector<Val> enumerate(const Sch& s, int depth, DomainCfg& cfg) {
     }
     case K::AryFix: case K::Stu: {
       std::vector<std::vector<Val>> lists;
-      for (auto& k : s.kids) lists.push_back(enumerate(k, depth + 1, cfg));
+      // containers of one or two members keep the depth of their members: a boundary-length string or vector
+      // is then also explored as a structure member / pair element (the product is narrowed deterministically)
+      const int kd = s.kids.size() <= 2 ? depth : depth + 1;
+      for (auto& k : s.kids) lists.push_back(enumerate(k, kd, cfg));
       for (auto& c : combine(lists, cfg)) { Val v; v.kids = std::move(c); out.push_back(std::move(v)); }
       return out;
     }
@@ -290,7 +293,7 @@ inline std::vector<Val> enumerate(const Sch& s, int depth, DomainCfg& cfg) {
         std::vector<Val> l;
         l.push_back(Val());  // absent
         if (!s.deleted[i])
-          for (auto& iv : enumerate(s.kids[i], depth + 1, cfg)) { Val v; v.u = 1; v.kids.push_back(iv); l.push_back(std::move(v)); }
+          for (auto& iv : enumerate(s.kids[i], s.kids.size() <= 2 ? depth : depth + 1, cfg)) { Val v; v.u = 1; v.kids.push_back(iv); l.push_back(std::move(v)); }
         lists.push_back(std::move(l));
       }
       for (auto& c : combine(lists, cfg)) { Val v; v.kids = std::move(c); out.push_back(std::move(v)); }
